@@ -48,6 +48,27 @@ WORDS = ['word', 'Some text here.', 'A sentence, with punctuation: yes!', 'x', '
          'end.', 'The quick brown fox', 'param', 'return']
 GOOGLE += [f'Args:\n    a (str, one of "{_TAIL}): d', f"Returns:\n    '{_TAIL}: r", f'Args:\n    a ("x\\" {_TAIL}, optional): d']
 NUMPY += [f'Parameters\n----------\na : "{_TAIL}\n    d', f"Returns\n-------\n'{_TAIL}\n    r", f'Parameters\n----------\na : {{"x", "{_TAIL}}}\n    d']
+# types that fail inside the renderer (characters XML cannot carry, a no-break space inside a word), in type positions of every markup
+EPY += ['@type a: in\ufffft', '@rtype: L{x}\xa0or\xa0None', '@param a: d\n@type a: list of in\ufffet']
+RST += [':type a: in\ufffft', ':rtype: x\xa0y', ':param in\ufffft a: d']
+GOOGLE += ['Args:\n    a (in\ufffft): d', 'Returns:\n    in\xa0t: r', 'Attributes:\n    v (list of in\ufffet): d']
+NUMPY += ['Parameters\n----------\na : in\ufffft\n    d', 'Returns\n-------\nin\xa0t\n    r']
+
+
+def _nested(depth: int, numpy: bool) -> str:
+    """field descriptions that contain sections of their own, `depth` levels deep"""
+    out = []
+    for lvl in range(depth):
+        pad = '    ' * (lvl * (1 if numpy else 2))
+        if numpy:
+            out += [f'{pad}Parameters', f'{pad}----------', f'{pad}a{lvl} : int']
+        else:
+            out += [f'{pad}Args:', f'{pad}    a{lvl}: description']
+    pad = '    ' * (depth * (1 if numpy else 2))
+    out.append(f'{pad}innermost text')
+    return '\n'.join(out)
+
+
 ALL = EPY + RST + GOOGLE + NUMPY + UNI + WORDS
 
 
@@ -121,5 +142,7 @@ def fuzz(r: Any) -> str:
         return ''.join(chr(r.choice([r.randrange(0x20, 0x7f), r.randrange(0, 0x20), r.randrange(0x80, 0x3000), r.randrange(0xd800, 0xe000), r.randrange(0x10000, 0x10ffff)]))
                        for _ in range(r.randint(0, 60)))
     # deep nesting / long repetition: stress recursion and regexes
+    if r.random() < .25:
+        return _nested(r.randint(8, 28), r.random() < .5)
     s = r.choice(['C{', 'B{I{', '*', '`', '(', '[', ' ' * 4 + '- ', '  ', '>>> ', '| ', '\\', 'L{a<', '@param ', ':param ', '.. note:: '])
     return s * r.randint(20, 400) + r.choice(['', 'x', '}' * 50, '\n'])
